@@ -112,7 +112,12 @@ where
                     break self.client_shutdown(id).await;
                 }
 
-                Selected::Transport(Ok(msg)) => self.send_broker_msg(id.clone(), msg).await?,
+                Selected::Transport(Ok(msg)) => {
+                    // This fails only when the broker has shut down. In that case, a final
+                    // `Shutdown` may still be queued for this connection and must reach the client.
+                    // Keep going until the queue has been drained.
+                    let _ = self.send_broker_msg(id.clone(), msg).await;
+                }
 
                 Selected::TransportFlushed(Ok(())) => self.flush_transport = false,
 
